@@ -32,15 +32,53 @@ const int kChkFail = 8;       // sol:chk:fail: documented result 150 when the so
 const int kRound = 7;         // mip:round=1..7 on the MIP model with a non-integral answer: rounding options must not touch the code
 
 const int kTable = 12;   // the -! table: 2 command lines x 6 sets of driver-specific result registrations
+const int kChkAll = 1000;  // sol:chk:fail with a violating answer under every code 0..999
+const int kSession = 60;   // one solver instance, several solve + report rounds through the AMPLS C API (standard / named .sol files)
 uint64_t enumerated(const std::string&) {
-  return (uint64_t)kCodes * kPatterns * kModes + kTable + (uint64_t)kAbortCodes * kAbortSites * kModes + kChkFail + (uint64_t)kCodes * kRound;
+  return (uint64_t)kCodes * kPatterns * kModes + kTable + (uint64_t)kAbortCodes * kAbortSites * kModes + kChkFail + (uint64_t)kCodes * kRound + kChkAll + kSession;
 }
 
 sim::Json generate(const std::string& tier, uint64_t seed, uint64_t index) {
   (void)tier; (void)seed;
   uint64_t n = (uint64_t)kCodes * kPatterns * kModes;
   const uint64_t nab = (uint64_t)kAbortCodes * kAbortSites * kModes;
-  if (index >= n + kTable + nab + kChkFail + (uint64_t)kCodes * kRound) return sim::Json();   // finite space, enumerated completely
+  const uint64_t old_total = n + kTable + nab + kChkFail + (uint64_t)kCodes * kRound;
+  if (index >= old_total + kChkAll + kSession) return sim::Json();   // finite space, enumerated completely
+  if (index >= old_total + kChkAll) {            // AMPLS-API sessions
+    uint64_t k = index - (old_total + kChkAll);
+    sim::Rng rng(12345, "C10session", k);
+    sim::Json sc = base_scenario(tiny_lp_nl(), true);
+    sim::Json ses = sim::Json::object();
+    sim::Json lo = sim::Json::array(); lo.push("sol:chk:mode=0"); ses.set("load_options", lo);
+    ses.set("api_options", sim::Json::array());
+    sim::Json rounds = sim::Json::array();
+    int nr = (int)rng.range(2, 5);
+    static const int codes[] = {0, 3, 100, 200, 301, 320, 400, 421, 450, 480, 500, 550, 999};
+    for (int i = 0; i < nr; ++i) {
+      sim::Json rd = sim::Json::object();
+      sim::Json sct = sim::Json::object();
+      sct.set("status", codes[rng.below(13)]); sct.set("status_msg", "status-msg-round-" + std::to_string(i));
+      sct.set("primal", "full"); sct.set("dual", "full"); sct.set("objvals", 1); sct.set("solve_iters", 1);
+      rd.set("script", sct);
+      int w = (int)rng.below(4);
+      if (w == 0) rd.set("solfile", "@/named_a.sol"); else if (w == 1) rd.set("solfile", "@/named_b.sol"); else rd.set("solfile", sim::Json());
+      rounds.push(rd);
+    }
+    ses.set("rounds", rounds);
+    sc.set("session", ses);
+    sc.set("code", 0); sc.set("mode", 0);
+    return sc;
+  }
+  if (index >= old_total) {                      // sol:chk:fail under every code, violating answer
+    int c = (int)(index - old_total);
+    sim::Json sc = base_scenario((c & 1) ? tiny_mip_nl() : tiny_lp_nl(), true);
+    sc.ref("argv").push("sol:chk:fail");
+    sim::Json& s = sc.ref("script");
+    s.set("status", c); s.set("status_msg", "status-msg-for-code");
+    s.set("primal", "full"); s.set("dual", "none"); s.set("objvals", 1); s.set("solve_iters", 1);
+    sc.set("chkall", true); sc.set("code", c); sc.set("mode", 0);
+    return sc;
+  }
   if (index >= n + kTable + nab + kChkFail) {    // every code under every mip:round value
     uint64_t k = index - (n + kTable + nab + kChkFail);
     int c = (int)(k % kCodes) - 200; int rnd = 1 + (int)(k / kCodes);
@@ -131,7 +169,54 @@ void judge(const sim::Json& sc, const RunRecord& rec, sim::RunResult& r) {
   auto flag = [&](const std::string& v, const std::string& k, const std::string& d) { if (viol.empty()) { viol = v; key = k; detail = d; } };
   r.nontrivial = true;
   if (rec.escaped) flag("ESCAPED_EXCEPTION", "run", rec.escaped_what);
-  if (sc["table"].as_bool()) {
+  if (sc.has("session")) {
+    // every round: the file the report was directed to carries the code and status text of that round; the others are untouched
+    std::map<std::string, std::string> prev;
+    size_t i = 0;
+    for (auto& rd : rec.rounds) {
+      const sim::Json& spec = sc["session"]["rounds"][i];
+      std::string target = spec["solfile"].is_null() ? "stub.sol" : spec["solfile"].as_str().substr(2);
+      int c = (int)spec["script"]["status"].as_int();
+      std::string rk = range_key(c) + "/session";
+      auto it = rd.sol_files.find(target);
+      if (rec.rc_load != 0) { flag("SESSION_LOAD_FAILED", "load", "AMPLSLoadNLModel returned " + std::to_string(rec.rc_load)); break; }
+      if (it == rd.sol_files.end()) flag("NO_SOL", rk, "round " + std::to_string(i) + ": " + target + " not written");
+      else {
+        oracle::SolFile sf = oracle::parse_sol(it->second);
+        if (!sf.ok) flag("MALFORMED_SOL", rk, "round " + std::to_string(i) + ": " + sf.error);
+        else {
+          if (sf.code != c) flag("CODE_CHANGED", rk, "round " + std::to_string(i) + ": backend reported " + std::to_string(c) + ", " + target + " says " + std::to_string(sf.code));
+          if (sf.message_text().find("status-msg-round-" + std::to_string(i)) == std::string::npos) flag("STATUS_MSG_LOST", rk, "round " + std::to_string(i) + ": " + target + " lacks this round's status text: " + sf.message_text().substr(0, 200));
+        }
+      }
+      for (auto& kv : prev) if (kv.first != target) { auto jt = rd.sol_files.find(kv.first); if (jt == rd.sol_files.end() || jt->second != kv.second) flag("OTHER_FILE_TOUCHED", rk, "round " + std::to_string(i) + " reported to " + target + " but " + kv.first + " changed"); }
+      prev = rd.sol_files;
+      ++i;
+    }
+    if (rec.rounds.size() != sc["session"]["rounds"].size()) flag("SESSION_INCOMPLETE", "rounds", "only " + std::to_string(rec.rounds.size()) + " rounds ran; " + rec.escaped_what);
+    r.stats.set("session_runs", 1); r.stats.set("session_rounds", (long)rec.rounds.size());
+    r.trace_sig = sim::fnv1a(std::string("session") + std::to_string(rec.rounds.size()), r.trace_sig);
+  } else if (sc["chkall"].as_bool()) {
+    // sol:chk:fail + a violating answer: 150 wherever the code announces a solution candidate (the check is documented to run
+    // on every candidate unless the solver says infeasible); 200-299 unchanged; the other classes either way
+    int c = (int)sc["code"].as_int();
+    std::string rk = range_key(c) + "/chkall";
+    auto it = rec.files_after.find("stub.sol");
+    if (it == rec.files_after.end()) flag("NO_SOL", rk, "no stub.sol written; stderr: " + rec.err.substr(0, 500));
+    else {
+      oracle::SolFile sf = oracle::parse_sol(it->second);
+      if (!sf.ok) flag("MALFORMED_SOL", rk, sf.error);
+      else {
+        bool cand = in(c, 0, 99) || in(c, 100, 199) || in(c, 300, 349) || in(c, 400, 449);
+        if (cand && sf.code != 150) flag("CHECK_SKIPPED", rk, "sol:chk:fail, violating answer, code " + std::to_string(c) + " announces a solution candidate: expected solve result 150, .sol says " + std::to_string(sf.code));
+        if (in(c, 200, 299) && sf.code != c) flag("CODE_CHANGED", rk, "infeasible code " + std::to_string(c) + " (no check without sol:chk:infeas) became " + std::to_string(sf.code));
+        if (sf.code != c && sf.code != 150) flag("CODE_CHANGED", rk, "code " + std::to_string(c) + " became " + std::to_string(sf.code));
+      }
+    }
+    r.stats.set("chkall_runs", 1);
+    long k = (long)c * 64 + 33;
+    r.trace_sig = sim::fnv1a(&k, sizeof k, r.trace_sig);
+  } else if (sc["table"].as_bool()) {
     // -! lists the nine documented ranges with those bounds
     for (auto& rg : kRanges) {
       char buf[32]; snprintf(buf, sizeof buf, "%3d-%3d", rg.lo, rg.hi);
